@@ -387,11 +387,22 @@ def node_main(args):
                     db.store_model(m)
                     rec['stored'] = True
                 else:
-                    try:
-                        back = db.retrieve_model(MH(rec['A']['key']))
-                        rec['retrieved'] = _sha(back.code)
-                    except Exception as e:
-                        rec['retrieved'] = f'ERR:{type(e).__name__}:{e}'[:200]
+                    # "retrievable by the key this node computed": the entry must be found under
+                    # that key.  Whether the stored control stream parses back is C02's concern
+                    # (e.g. set_ode_solver('LSODA') writes code that does not re-parse): by-product.
+                    kdir = os.path.join(str(db.path), rec['A']['key'])
+                    found = any(os.path.isfile(os.path.join(kdir, f)) for f in ('model.ctl', 'model.mod'))
+                    if not found:
+                        rec['retrieved'] = 'ERR:entry not found under the key computed in this node'
+                    else:
+                        try:
+                            back = db.retrieve_model(MH(rec['A']['key']))
+                            rec['retrieved'] = _sha(back.code)
+                        except KeyError as e:
+                            rec['retrieved'] = f'ERR:{type(e).__name__}:{e}'[:200]
+                        except Exception as e:
+                            rec['retrieved'] = 'found'
+                            rec['reparse_error'] = f'{type(e).__name__}:{e}'[:200]
         except Exception as e:
             import traceback
             rec['error'] = f'{type(e).__name__}: {e}'[:300]
@@ -475,7 +486,7 @@ def compare(batch, nodes_out, hashseeds):
              'node_comparisons': 0, 'retrieved_across_nodes': 0}
 
     def strip(rec):
-        r = {k: v for k, v in rec.items() if k not in ('stored', 'retrieved', 'trace')}
+        r = {k: v for k, v in rec.items() if k not in ('stored', 'retrieved', 'trace', 'reparse_error')}
         return r
 
     for j in range(n):
@@ -508,6 +519,9 @@ def compare(batch, nodes_out, hashseeds):
                         {'index': a['index'], 'history': a.get('history'), 'pair': a.get('pair'),
                          'hashseeds': [hashseeds[0], hashseeds[ni]]})
                 break
+            if 'reparse_error' in b:
+                stats['byproduct_stored_model_does_not_reparse'] = \
+                    stats.get('byproduct_stored_model_does_not_reparse', 0) + 1
             if 'retrieved' in b:
                 stats['retrieved_across_nodes'] += 1
                 if str(b['retrieved']).startswith('ERR'):
@@ -720,6 +734,8 @@ def main(argv):
                     'byproduct_transformation_depends_on_hashseed':
                         stats.get('byproduct_transformation_depends_on_hashseed', 0),
                     'byproduct_examples': stats.get('byproduct_examples', [])[:5],
+                    'byproduct_stored_model_does_not_reparse':
+                        stats.get('byproduct_stored_model_does_not_reparse', 0),
                     'known_findings_seen': known_seen,
                     'runs_per_hour': int(stats['models'] * len(hashseeds) / wall * 3600),
                     'components': {'real': ['whole pharmpy in every node (real interpreter processes)',
